@@ -2,7 +2,7 @@ import MayVerif.Proof.Io.Inv
 namespace MayVerif.Io
 
 set_option maxHeartbeats 8000000 in
-theorem inv4_wstep (st st' : St) (w : Wk) (pc : WPc) (e : Env) (h : Inv1 st) (h4 : Inv4 st)
+theorem inv4_wstep (st st' : St) (w : Wk) (pc : WPc) (e : Env) (hc : Cfg st) (h : Inv1 st) (h4 : Inv4 st)
     (hpc : st.wpc w = pc) (hs : wstep st w pc e = some st') : Inv4 st' := by
   prep4
   have hlw := lw w; have hww := ww w
@@ -10,9 +10,11 @@ theorem inv4_wstep (st st' : St) (w : Wk) (pc : WPc) (e : Env) (h : Inv1 st) (h4
   | idle => cases e <;> crunch
   | sTake s => crunch
   | sDis s c => simp [hpc, wHolds] at hlw hww; crunch
+  | fChk s t => crunch
   | fOr s t => crunch
   | fTake s t => crunch
   | xio c => crunch
   | xtake s => crunch
+  | xDis s c => simp [hpc, wHolds] at hlw hww; crunch
 
 end MayVerif.Io
